@@ -50,9 +50,9 @@ CHECKS = {
  "C14": ("other", "field-discipline + delegation-shape interpretation of the Object impls; derive facts from the item table",
          "PartialEq/PartialOrd/Ord/Hash for Object touch only `entries` of their operands and delegate, on a single unconditional path, to the same method of Vec<Entry> (partial_cmp = Some(cmp)), calling nothing else; Value and Entry carry compiler-derived PartialEq/Eq/PartialOrd/Ord/Hash/Clone; Object: Clone is derived and Eq a marker.",
          "coherence of the dependency types' Eq/Ord/Hash (NumberBuf, SmallString) trusted; derived lexicographic impls are mutually coherent given coherent components.", "3/C14"),
- "C15": ("other", "per-variant-pair interpretation of Value::unordered_eq, call-site / provenance rules for Object and Vec, interpretation of Indexes::is_redundant",
-         "Necessary structural clauses only: dispatch over all 36 variant pairs (scalars ==, arrays Vec::unordered_eq, objects Object::unordered_eq, mixed false); Vec::unordered_eq compares lengths and elements position-wise with unordered_eq; Object::unordered_eq compares lengths, checks containment with unordered_eq in both directions, the backward pass guarded by duplicate keys of self; a key is redundant iff it has more than one position.",
-         "NOT decided: that the containment procedure is a one-to-one matching of duplicate keys (it is not on today's tree: {k:1,k:1,k:2} ~ {k:1,k:2,k:2}); no sound structural criterion is in reach, so this clause is unclaimed.", "3/C15"),
+ "C15": ("other", "abstract interpretation of Object::unordered_eq on every small configuration (exact, hash lookup replaced by key positions) + per-variant-pair interpretation of Value::unordered_eq + call-site rules for Vec + interpretation of Indexes::is_redundant",
+         "C15.match: Object::unordered_eq, interpreted from its MIR on every pair of abstract objects with up to 3 (quick) / 4 (thorough) entries over two keys and two value tokens (up to renaming; equal lengths and lengths differing by one; the hash lookup replaced by the positions of the key, the nested comparison by token equality), returns exactly equality of the multisets of (key, value) entries; C15.dispatch: all 36 variant pairs (scalars ==, arrays Vec::unordered_eq, objects Object::unordered_eq, mixed false); C15.vec: Vec::unordered_eq compares lengths and elements position-wise with unordered_eq; C15.redundant: a key is redundant iff it has more than one position and contains_duplicate_keys scans every bucket.",
+         "bounded: objects larger than 4 entries / more than two distinct keys or values are covered only by the uniformity of the procedure (it compares keys and values for equality only); nested values are compared through the same function (induction on depth is an argument, not mechanised); hash/equality coherence of keys trusted.", "3/C15"),
  "C18": ("other", "per-variant interpretation of both conversions with the number/string conversions as recorded cut points + panic reachability",
          "Both conversions map every variant to the same-named variant on a single unconditional path; numbers go through the number crate's From impl only, strings through From/into_string, containers through into_iter/map/collect with recursion into every element, objects rebuilt through the push family; every panic source in crate/sibling-crate code reachable from the four conversion entry points is discharged, allowlisted or a recorded known finding.",
          "NOT decided: numeric equality of converted numbers (json-number converts through text / f64). The unwrap of from_f64 in json-number is a known finding.", "3/C18"),
